@@ -81,6 +81,8 @@ let fuel = nat_of_int 60000
 
 (* the flag of Model/Reader.v that is parser.go as it is now *)
 let code = true
+(* cfix: false = parser.go as it is (finding curly-comment-drop) *)
+let cfix = false
 
 let parse_cuts (s : string) : int list =
   if s = "-" || s = "" then [] else List.map int_of_string (String.split_on_char ',' s)
@@ -99,7 +101,7 @@ let pieces (text : z list) (cuts : int list) : z list list =
       take (c - prev) rest :: go c cs (drop (c - prev) rest)
   in go 0 cuts text
 
-let is_final (o : outcome) = match o with OErr _ | OCrash | OFuel -> true | _ -> false
+let is_final (o : outcome) = match o with OErr _ | OCrash _ | OFuel -> true | _ -> false
 
 (* deliver the pieces one by one from p (already reset); returns the observables and the last state *)
 let deliver_seq (strict : bool) (p : pstate) (ps : z list list) : string list * pstate =
@@ -107,18 +109,31 @@ let deliver_seq (strict : bool) (p : pstate) (ps : z list list) : string list * 
     match ps with
     | [] -> (List.rev acc, p)
     | x :: rest ->
-      let p' = p_deliver strict p x in
+      let p' = p_deliver strict cfix p x in
       let acc = show_obs p'.ps_out :: acc in
       if is_final p'.ps_out then (List.rev acc, p') else go p' rest acc
   in go p ps []
 
 let last l = List.nth l (List.length l - 1)
 
+(* the two independent "unfinished" scanners on a text: rune level (U) and token level (V) *)
+let verdicts (text : z list) : string =
+  let u = (match unfinished text with Some true -> "unfinished" | Some false -> "finished" | None -> "-") in
+  let ((m, d), pend) = scan (text @ [z_of_int 10]) in
+  let mname = (match m with MCode -> "Code" | MStr -> "Str" | MStrEsc -> "Str" | MRaw -> "Raw" | MLine -> "Line"
+    | MBlock -> "Block" | MBlockStar -> "Block" | MSlash -> "Slash" | MRune -> "Rune" | MRuneEsc -> "Rune") in
+  let mname = if pend && mname = "Code" then "Prefix" else mname in
+  let v = (match tok_verdict (text_tokens text) with
+           | Some (fin, _) -> if fin then "fin" else "unf"
+           | None -> "none") in
+  let ok = snd (lex_text (text @ [z_of_int 10])) in
+  "U=" ^ u ^ ":" ^ mname ^ ":" ^ string_of_z d ^ " ;; V=" ^ v ^ ":" ^ (if ok then "lexok" else "lexerr")
+
 let do_chunk (text : z list) (cuts : int list) : string * string =
   let ps = mark_last (pieces text cuts) in
-  let w = show_obs (parse_whole code fuel text) in
+  let w = show_obs (parse_whole code cfix fuel text) in
   let (obs, _) = deliver_seq code (p_reset fuel (p_init fuel)) ps in
-  let ws = show_obs (parse_whole true fuel text) in
+  let ws = show_obs (parse_whole true cfix fuel text) in
   let (obss, _) = deliver_seq true (p_reset fuel (p_init fuel)) ps in
   let u = (match unfinished text with Some true -> "unfinished" | Some false -> "finished" | None -> "-") in
   let ((m, d), pend) = scan (text @ [z_of_int 10]) in
@@ -126,34 +141,64 @@ let do_chunk (text : z list) (cuts : int list) : string * string =
     | MBlock -> "Block" | MBlockStar -> "Block" | MSlash -> "Slash" | MRune -> "Rune" | MRuneEsc -> "Rune") in
   let mname = if pend && mname = "Code" then "Prefix" else mname in
   let u = u ^ ":" ^ mname ^ ":" ^ string_of_z d in
-  ("W=" ^ w ^ " ;; P=" ^ String.concat " | " obs, "W=" ^ ws ^ " ;; F=" ^ last obss ^ " ;; U=" ^ u)
+  let v = (match tok_verdict (text_tokens text) with
+           | Some (fin, _) -> if fin then "fin" else "unf"
+           | None -> "none") in
+  let cp = if curly_plain (text_tokens text) then "plain" else "curlycomment" in
+  ("W=" ^ w ^ " ;; P=" ^ String.concat " | " obs, "W=" ^ ws ^ " ;; F=" ^ last obss ^ " ;; U=" ^ u ^ " ;; V=" ^ v ^ ":" ^ cp)
 
 let rec triples = function
   | h :: c :: a :: rest -> (h, c, a) :: triples rest
   | _ -> []
 
 let do_hist (text : z list) (items : (string * string * string) list) : string =
-  let fresh = show_obs (parse_whole code fuel text) in
+  let fresh = show_obs (parse_whole code cfix fuel text) in
   let p = List.fold_left (fun p (h, c, a) ->
       let ps = pieces (decode h) (parse_cuts c) in
       let ps = if a = "a" then ps else mark_last ps in
       snd (deliver_seq code (p_reset fuel p) ps)) (p_init fuel) items in
-  let after = show_obs (parse_after code fuel p text) in
+  let after = show_obs (parse_after code cfix fuel p text) in
   let same = if reset p.ps_lex = init_lstate then "same" else "diff" in
   "F=" ^ fresh ^ " ;; H=" ^ after ^ " ;; S=" ^ same
+
+(* the REPL reader: lines (each with its newline) are delivered one by one until the parser no longer asks for more *)
+let split_lines (text : z list) : z list list =
+  let rec go cur acc = function
+    | [] -> List.rev (List.rev cur :: acc)
+    | c :: t -> if int_of_z c = 10 then go [] (List.rev cur :: acc) t else go (c :: cur) acc t
+  in go [] [] text
+
+let do_repl (entry : z list) : string =
+  let nlz = z_of_int 10 in
+  let lines = split_lines entry @ [[]; []; []; []; []] in
+  let rec go p ls n =
+    match ls with
+    | [] -> ("EOF", 0)
+    | l :: rest ->
+      let p' = p_deliver code cfix p (l @ [nlz]) in
+      (match fst (observe p'.ps_out) with
+       | StMore -> go p' rest (n + 1)
+       | StDone -> (show_obs p'.ps_out, n + 1)
+       | StErr -> ("E", 0)
+       | StCrash -> ("P", 0)
+       | StFuel -> ("X", 0))
+  in
+  let (r, n) = go (p_reset fuel (p_init fuel)) lines 0 in
+  "R=" ^ r ^ " ;; N=" ^ string_of_int n
 
 let () =
   iter_lines (fun line ->
     match split_tab line with
     | id :: body :: _ ->
       (match split_sp body with
-       | ["tok"; t] -> Printf.printf "%s\t%s\t-\n" id (show_toks (lex_text (decode t)))
+       | ["tok"; t] -> Printf.printf "%s\t%s\t%s\n" id (show_toks (lex_text (decode t))) (verdicts (decode t))
        | ["atom"; t] ->
          let r = (match decode_atom (decode t) with Some tok -> show_tok tok | None -> "!E") in
          Printf.printf "%s\t%s\t-\n" id r
        | ["chunk"; t; c] ->
          let (m, sp) = do_chunk (decode t) (parse_cuts c) in
          Printf.printf "%s\t%s\t%s\n" id m sp
+       | ["repl"; t] -> Printf.printf "%s\t%s\t-\n" id (do_repl (decode t))
        | "hist" :: t :: _ :: rest ->
          Printf.printf "%s\t%s\t-\n" id (do_hist (decode t) (triples rest))
        | _ -> Printf.printf "%s\t-\t-\n" id)
